@@ -283,6 +283,12 @@ def exec_for(I, st, node):
             st.assume(z3.ForAll([q], z3.Implies(z3.Select(seen, q), z3.Select(D, q))))
             st.assume(z3.Select(D, kx))
             st.assume(z3.Not(z3.Select(seen, kx)))
+            if kind == "dict" and kd.name in REG.ordered:
+                # insertion order: the keys already visited are exactly those inserted before the current one
+                # (sound for loops that do not insert or delete keys; ranks of present keys are pairwise different)
+                rk = I.rank_of(st, d)
+                q2 = z3.FreshConst(ks, "q")
+                st.assume(z3.ForAll([q2], z3.Select(seen, q2) == z3.And(z3.Select(D, q2), z3.Select(rk, q2) < z3.Select(rk, kx))))
             havoc(I, st, ls, entry_env, names)
             assume_inv(I, st, ls, mk_env({"SEEN": Val(setty, seen), "ALL": Val(setty, D)}))
             keyv = Val(kt, kx)
